@@ -195,6 +195,15 @@ func (t *Queue[T]) Poll(waitIfEmpty bool) T {
 			// immediately return the value if the pending timeouts are supposed to be ignored
 			if t.shutdownFlags.HasBits(IgnorePendingTimeouts) {
 				timeutil.CleanupTimer(timer)
+
+				// the element could have been canceled before the queue was shut down: select picks a random
+				// case if more than one is ready, so we have to look at the cancel channel again.
+				select {
+				case <-polledElement.Value.cancel:
+					continue
+				default:
+				}
+
 				return polledElement.Value.Value
 			}
 
@@ -207,6 +216,13 @@ func (t *Queue[T]) Poll(waitIfEmpty bool) T {
 
 			// return the result after the time is reached
 			case <-timer.C:
+				// the element could have been canceled before the timer fired (see above)
+				select {
+				case <-polledElement.Value.cancel:
+					continue
+				default:
+				}
+
 				return polledElement.Value.Value
 			}
 
@@ -217,6 +233,13 @@ func (t *Queue[T]) Poll(waitIfEmpty bool) T {
 
 		// return the result after the time is reached
 		case <-timer.C:
+			// the element could have been canceled before the timer fired (see above)
+			select {
+			case <-polledElement.Value.cancel:
+				continue
+			default:
+			}
+
 			return polledElement.Value.Value
 		}
 	}
